@@ -7,6 +7,7 @@ import (
 	"go/types"
 	"log"
 	"os"
+	"sort"
 	"strings"
 
 	"github.com/go-openapi/swag"
@@ -590,7 +591,15 @@ func (a *typeIndex) walkImports(pkg *packages.Package) error {
 	if a.excludeDeps {
 		return nil
 	}
-	for _, v := range pkg.Imports {
+	// walk the imports in a stable order: routes, parameters and responses are collected in
+	// the order packages are visited, and that order shows in the generated spec
+	importPaths := make([]string, 0, len(pkg.Imports))
+	for k := range pkg.Imports {
+		importPaths = append(importPaths, k)
+	}
+	sort.Strings(importPaths)
+	for _, k := range importPaths {
+		v := pkg.Imports[k]
 		if _, known := a.AllPackages[v.PkgPath]; known {
 			continue
 		}
